@@ -171,7 +171,13 @@ def rewrite_query_s(max_leaves=8):
                       st.sampled_from([None, "a", "ab", "b"]), st.sampled_from([None, "abc", "b", "c"])),
         )
         same_field = st.lists(tleaf, min_size=2, max_size=3)
-        kids = st.one_of(lst, lst, dup, same_field)
+        # two ranges meeting at a word of the vocabulary, with every combination of open / closed at the meeting point
+        touching = st.builds(lambda m, lo, hi, ee, se: [
+            {"op": "trange", "f": "t", "start": lo, "end": m, "se": False, "ee": ee},
+            {"op": "trange", "f": "t", "start": m, "end": hi, "se": se, "ee": False}],
+            st.sampled_from(["ab", "b", "ba", "abc", "aa"]), st.sampled_from([None, "a"]), st.sampled_from([None, "c", "cab"]),
+            st.booleans(), st.booleans())
+        kids = st.one_of(lst, lst, dup, same_field, touching)
         return st.one_of(
             st.builds(lambda qs, b: {"op": "and", "qs": qs, "boost": b}, kids, boost_s),
             st.builds(lambda qs, b: {"op": "or", "qs": qs, "boost": b}, kids, boost_s),
